@@ -1,6 +1,6 @@
 //! Grammar-weighted generator of (mostly malformed) XML for xml5ever.
 
-use crate::gen_html::{gen_charref, mutate, SizeClass, ODD_CHARS};
+use crate::gen_html::{gen_charref, long_run, mutate, near_count, near_threshold, SizeClass, ODD_CHARS};
 use crate::rng::Rng;
 
 const NAMES: &[&str] = &["a", "b", "root", "item", "script", "p:a", "q:b", "p:script", "x:y", "svg", "xml:z", "xmlns:a", ":a", "a:", "a:b:c", "é", "title"];
@@ -215,4 +215,66 @@ pub fn gen_xml(rng: &mut Rng, size: SizeClass) -> String {
         s = s.chars().take(budget).collect();
     }
     s
+}
+
+/// XML inputs that probe size thresholds: long runs in every kind of token, many siblings,
+/// attributes and namespace declarations, deep nesting.
+pub fn gen_xml_scale(rng: &mut Rng) -> String {
+    let mut out = String::new();
+    if rng.chance(1, 8) {
+        out.push_str("<?xml version=\"1.0\"?>");
+    }
+    match rng.below(6) {
+        0 | 1 => {
+            let (pre, post) = *rng.pick(&[
+                ("<doc>", "</doc>"), ("<doc>", ""), ("", ""), ("<a b=\"", "\"/>"), ("<a b='", "'>t</a>"), ("<!--", "-->"), ("<![CDATA[", "]]>"),
+                ("<?pi ", "?>"), ("<p:a xmlns:p='", "'/>"), ("<doc><script>", "</script>x</doc>"), ("<!DOCTYPE ", ">"), ("<doc>&", ";</doc>"),
+            ]);
+            out.push_str(pre);
+            let mut n = near_threshold(rng);
+            if rng.chance(1, 3) {
+                n += rng.below(n / 2 + 1);
+            }
+            long_run(rng, n, &mut out);
+            out.push_str(post);
+            out.push_str(rng.pick_str(&["", "<b/>tail", "\r\n", "</doc>"]));
+        },
+        2 => {
+            out.push_str("<root>");
+            let item = rng.pick_str(&["<i/>", "<!--c-->", "<script/>", "t<b/>", "<?p d?>", "<p:i xmlns:p='u'/>", "<i></i>", "<![CDATA[c]]>"]);
+            for _ in 0..near_count(rng) {
+                out.push_str(item);
+            }
+            out.push_str(rng.pick_str(&["</root>", "", "</>", "<x>"]));
+        },
+        3 => {
+            let tag = rng.pick_str(&["<a>", "<p:a xmlns:p='u'>", "<a xmlns='d'>", "<script>", "<a b='c'>"]);
+            for _ in 0..near_count(rng).min(130) {
+                out.push_str(tag);
+            }
+            out.push_str(rng.pick_str(&["t", "<script/>", "</a>", "</>"]));
+            for _ in 0..rng.small(4) {
+                out.push_str(rng.pick_str(&["</a>", "</p:a>", "</>", "x", "</script>"]));
+            }
+        },
+        4 => {
+            out.push_str("<e");
+            let n = near_count(rng).min(257);
+            for i in 0..n {
+                match rng.below(6) {
+                    0 => out.push_str(&format!(" xmlns:p{}='u{}'", i, i % 3)),
+                    1 => out.push_str(&format!(" p{}:a='v'", i / 2)),
+                    _ => out.push_str(&format!(" a{}='{}'", if rng.chance(1, 40) { 0 } else { i }, i % 10)),
+                }
+            }
+            out.push_str(rng.pick_str(&["/>", ">t</e>", ">"]));
+        },
+        _ => {
+            node(rng, &mut out, 3);
+            let n = near_threshold(rng);
+            long_run(rng, n, &mut out);
+            node(rng, &mut out, 3);
+        },
+    }
+    out
 }
